@@ -516,6 +516,42 @@ pub fn drive(tier: &str) -> i32 {
     // quick: the large groups get every transformation at all sites and all at once; the subsets are left to thorough
     let coarse = json!({"single_site_limit": 0, "all_only": quick});
     let mut groups = vec![];
+    // statements that may end right after their keyword (their operands are optional, or the keyword also starts a
+    // closing line such as END IF): alone on their line in every kind of block, at module level and inside a SUB
+    let mut bare: Vec<String> = vec![];
+    for stmt in ["END", "STOP", "SYSTEM", "RETURN", "RETURN Away", "RESUME", "RESUME NEXT", "RESUME Away", "EXIT SUB", "CLS", "BEEP", "PRINT", "PRINT ,", "PRINT 1;", "LPRINT", "CLOSE", "CLOSE #1", "ON ERROR GOTO 0", "ON ERROR RESUME NEXT", "Bump", "CALL Bump", "LET n% = 5", "n% = 5", "GOTO Away", "GOSUB Away", "DATA 1", "READ n%", "INPUT n%", "DIM zz%", "CONST cc = 1", "ERASE?", "VIEW PRINT", "WIDTH 80"] {
+        for (k, container) in [
+            "@", "IF n% = 0 THEN\n@\nEND IF", "IF n% = 1 THEN\nPRINT 1\nELSEIF n% = 0 THEN\n@\nELSE\nPRINT 2\nEND IF", "IF n% = 1 THEN\nPRINT 1\nELSE\n@\nEND IF", "SELECT CASE n%\nCASE 0\n@\nCASE 1\nPRINT 1\nEND SELECT",
+            "SELECT CASE n%\nCASE 1\nPRINT 1\nCASE ELSE\n@\nEND SELECT", "FOR i% = 1 TO 2\n@\nNEXT", "WHILE k% < 2\nk% = k% + 1\n@\nWEND", "DO\nk% = k% + 1\n@\nLOOP UNTIL k% >= 2", "IF n% = 0 THEN @", "IF n% = 1 THEN PRINT 1 ELSE @",
+            "IF n% = 0 THEN @ ELSE PRINT 2",
+        ]
+        .iter()
+        .enumerate()
+        {
+            for in_sub in [false, true] {
+                if (stmt == "EXIT SUB") != in_sub && stmt == "EXIT SUB" {
+                    continue;
+                }
+                // single-line IF takes simple statements only
+                if k >= 9 && (stmt.starts_with("DATA") || stmt.starts_with("DIM") || stmt.starts_with("CONST")) {
+                    continue;
+                }
+                let body = format!("PRINT \"in\"\n{}\nPRINT \"out\"; n%\n", container.replace('@', stmt));
+                let tail = "PRINT \"end\"\nEND\nAway:\nPRINT \"away\"\nEND\n";
+                let sub = "SUB Bump\nn% = n% + 1\nEND SUB\n";
+                let text = if in_sub {
+                    if stmt.contains("Away") || stmt.starts_with("DATA") {
+                        continue;
+                    }
+                    format!("DIM SHARED n%\nPRINT \"start\"\nWork\n{tail}SUB Work\n{body}END SUB\n{sub}")
+                } else {
+                    format!("DIM SHARED n%\nPRINT \"start\"\n{body}{tail}{sub}")
+                };
+                bare.push(text);
+            }
+        }
+    }
+    groups.push(super::run_text_group(&mut run, &pool, "33 statements that can end right after their keyword, alone on their line in 12 kinds of block position, at module level and inside a SUB", &bare, 8, &if quick { coarse.clone() } else { extra.clone() }));
     let h = harvest();
     let harvested: Vec<String> = h.texts.iter().map(|(_, t)| t.clone()).filter(|t| !t.to_ascii_uppercase().contains("INKEY")).collect();
     groups.push(super::run_text_group(&mut run, &pool, "harvested texts (accepted and rejected)", &harvested, 10, &coarse));
@@ -563,42 +599,6 @@ pub fn drive(tier: &str) -> i32 {
         midline.push(format!("{d}DO: n% = n% + 1: {call}: LOOP UNTIL n% > 3\nPRINT n%\n{sub}"));
     }
     groups.push(super::run_text_group(&mut run, &pool, "calls without arguments in the middle of a line", &midline, 4, &extra));
-    // statements that may end right after their keyword (their operands are optional, or the keyword also starts a
-    // closing line such as END IF): alone on their line in every kind of block, at module level and inside a SUB
-    let mut bare: Vec<String> = vec![];
-    for stmt in ["END", "STOP", "SYSTEM", "RETURN", "RETURN Away", "RESUME", "RESUME NEXT", "RESUME Away", "EXIT SUB", "CLS", "BEEP", "PRINT", "PRINT ,", "PRINT 1;", "LPRINT", "CLOSE", "CLOSE #1", "ON ERROR GOTO 0", "ON ERROR RESUME NEXT", "Bump", "CALL Bump", "LET n% = 5", "n% = 5", "GOTO Away", "GOSUB Away", "DATA 1", "READ n%", "INPUT n%", "DIM zz%", "CONST cc = 1", "ERASE?", "VIEW PRINT", "WIDTH 80"] {
-        for (k, container) in [
-            "@", "IF n% = 0 THEN\n@\nEND IF", "IF n% = 1 THEN\nPRINT 1\nELSEIF n% = 0 THEN\n@\nELSE\nPRINT 2\nEND IF", "IF n% = 1 THEN\nPRINT 1\nELSE\n@\nEND IF", "SELECT CASE n%\nCASE 0\n@\nCASE 1\nPRINT 1\nEND SELECT",
-            "SELECT CASE n%\nCASE 1\nPRINT 1\nCASE ELSE\n@\nEND SELECT", "FOR i% = 1 TO 2\n@\nNEXT", "WHILE k% < 2\nk% = k% + 1\n@\nWEND", "DO\nk% = k% + 1\n@\nLOOP UNTIL k% >= 2", "IF n% = 0 THEN @", "IF n% = 1 THEN PRINT 1 ELSE @",
-            "IF n% = 0 THEN @ ELSE PRINT 2",
-        ]
-        .iter()
-        .enumerate()
-        {
-            for in_sub in [false, true] {
-                if (stmt == "EXIT SUB") != in_sub && stmt == "EXIT SUB" {
-                    continue;
-                }
-                // single-line IF takes simple statements only
-                if k >= 9 && (stmt.starts_with("DATA") || stmt.starts_with("DIM") || stmt.starts_with("CONST")) {
-                    continue;
-                }
-                let body = format!("PRINT \"in\"\n{}\nPRINT \"out\"; n%\n", container.replace('@', stmt));
-                let tail = "PRINT \"end\"\nEND\nAway:\nPRINT \"away\"\nEND\n";
-                let sub = "SUB Bump\nn% = n% + 1\nEND SUB\n";
-                let text = if in_sub {
-                    if stmt.contains("Away") || stmt.starts_with("DATA") {
-                        continue;
-                    }
-                    format!("DIM SHARED n%\nPRINT \"start\"\nWork\n{tail}SUB Work\n{body}END SUB\n{sub}")
-                } else {
-                    format!("DIM SHARED n%\nPRINT \"start\"\n{body}{tail}{sub}")
-                };
-                bare.push(text);
-            }
-        }
-    }
-    groups.push(super::run_text_group(&mut run, &pool, "33 statements that can end right after their keyword, alone on their line in 12 kinds of block position, at module level and inside a SUB", &bare, 8, &if quick { coarse.clone() } else { extra.clone() }));
     let mut ev = Evidence::new("exploration");
     ev.set("rule", "for every text of the groups: 18 layout transformations (words lower / upper / alternating case outside strings, comments and DATA; blank runs tripled / turned into a tab; a blank line after every line; a trailing comment on every line without DATA or comment; line ends CR LF / CR; newline -> colon between two simple statements (and a label on its own line joined with the simple statement after it: `Lbl: PRINT 1`); colon -> newline between statements of a line without IF / CASE / DATA; blanks around separators doubled where a blank is adjacent; word case alternating from one occurrence to the next; a blank before and after every statement colon; a long trailing comment holding a URL with a word of 60 letters, quotes and keywords; lines indented by 256 blanks; blank runs of 300 blanks — so that statements start beyond column 255; the blank removed next to = + * / < > , ; and next to a parenthesis that follows or precedes a keyword or a symbol), each applied at all eligible sites, at the even sites, at the odd sites and (texts with few sites) at every single site, plus all of them at once. Observables compared with the original: the parse tree's Debug rendering with positions erased and letters outside string literals upper-cased, the verdict class of parser / checker / run (error kind, run-time code), stdout and LPT1.");
     ev.set("exhaustive", !run.capped);
